@@ -543,6 +543,98 @@ theorem C04_gen_nodeSelect_inBounds (sz pos n : Int) (hsz : 0 ≤ sz) (hn : 0 < 
     by_cases h2 : sz < pos + n <;> simp only [h2, if_true, if_false] <;>
       refine ⟨?_, ?_, trivial, ?_, ?_, ?_⟩ <;> first | omega | simp
 
+
+/-! ## `mip:round`: the only documented modification of the returned values (source-tied to `StdBackend::DoRound`) -/
+
+theorem absVal_eq_zero (z : Val) (h : absVal z = 0) : z = 0 := by
+  unfold absVal at h
+  split at h
+  · grind
+  · exact h
+
+theorem map_getD_range (x : List Val) : (List.range x.length).map (fun j => x.getD j 0) = x := by
+  apply List.ext_getElem
+  · simp
+  · intro i h1 h2
+    simp [List.getD_eq_getElem?_getD, h2]
+
+open MpVerif.Gen in
+/-- `const bool fAssign = round() & 1;` is the model's `roundAssign` (bit 1 of the option; `round() && 1` would be `r ≠ 0`) -/
+theorem C04_gen_doRound_assign (r : Int) : ValCvt.doRoundAssign r ↔ roundAssign r = true := by
+  simp [ValCvt.doRoundAssign, roundAssign]
+
+open MpVerif.Gen in
+/-- the loop body of `DoRound` (round, test the deviation, assign only `if (fAssign)`) is the model's `roundElem` -/
+theorem C04_gen_doRound_elem (fAssign isInt : Bool) (x : Val) : ValCvt.doRoundElem fAssign isInt x = roundElem fAssign isInt x := by
+  unfold ValCvt.doRoundElem roundElem
+  cases isInt <;> cases fAssign <;> simp
+  intro h
+  have := absVal_eq_zero _ h.symm
+  grind
+
+open MpVerif.Gen in
+/-- the whole option table `mip:round` = 0..7: values are assigned exactly for the odd options, the message is extended exactly for
+    options ≥ 4 and says "rounded" (not "would be rounded") exactly for the odd ones; rounding is attempted only for a non-zero option on a
+    MIP, inside `if (IsProblemSolvedOrFeasible())`, on `sol.primal`, over `min(fInt.size(), sol.size())` entries -/
+theorem C04_gen_round_option_table :
+    (¬ ValCvt.doRoundAssign 0) ∧ ValCvt.doRoundAssign 1 ∧ (¬ ValCvt.doRoundAssign 2) ∧ ValCvt.doRoundAssign 3 ∧
+    (¬ ValCvt.doRoundAssign 4) ∧ ValCvt.doRoundAssign 5 ∧ (¬ ValCvt.doRoundAssign 6) ∧ ValCvt.doRoundAssign 7 ∧
+    (¬ ValCvt.roundMsgFlag 0) ∧ (¬ ValCvt.roundMsgFlag 1) ∧ (¬ ValCvt.roundMsgFlag 2) ∧ (¬ ValCvt.roundMsgFlag 3) ∧
+    ValCvt.roundMsgFlag 4 ∧ ValCvt.roundMsgFlag 5 ∧ ValCvt.roundMsgFlag 6 ∧ ValCvt.roundMsgFlag 7 ∧
+    (¬ ValCvt.roundMsgReally 4) ∧ ValCvt.roundMsgReally 5 ∧ (¬ ValCvt.roundMsgReally 6) ∧ ValCvt.roundMsgReally 7 ∧
+    (∀ r isMIP, ValCvt.roundGuard r isMIP ↔ (r ≠ 0 ∧ isMIP = true)) ∧
+    ValCvt.roundCallSite = ("IsProblemSolvedOrFeasible", "primal") ∧ ValCvt.doRoundBound = "min(fInt.size,sol.size)" := by
+  unfold ValCvt.doRoundAssign ValCvt.roundMsgFlag ValCvt.roundMsgReally
+  refine ⟨by decide, by decide, by decide, by decide, by decide, by decide, by decide, by decide, by decide, by decide, by decide, by decide,
+    by decide, by decide, by decide, by decide, by decide, by decide, by decide, by decide, ?_, by decide, by decide⟩
+  intro r isMIP
+  rfl
+
+/-- **Report-only options keep every value**: for every even `mip:round` (0, 2, 4, 6, …) the vector written for the original variables is
+    exactly the postsolved solver vector. -/
+theorem C04_round_report_only_keeps_values (r : Int) (hr : r % 2 = 0) (isMIP solved : Bool) (isInt : List Bool) (x : List Val) :
+    roundStep r isMIP solved isInt x = x := by
+  unfold roundStep
+  split
+  · have hA : roundAssign r = false := by simp [roundAssign, hr]
+    have : (fun j => if j < isInt.length then roundElem (roundAssign r) (isInt.getD j false) (x.getD j 0) else x.getD j 0)
+        = (fun j => x.getD j 0) := by
+      funext j
+      simp [hA, roundElem]
+    rw [this]
+    exact map_getD_range x
+  · rfl
+
+/-- **With bit 1 set** (odd option, MIP, solved/feasible) exactly the integer variables are rounded (`std::round`), every other variable keeps
+    the solver's value; the vector never changes its length. -/
+theorem C04_round_rounds_only_integers (r : Int) (hr : r % 2 = 1) (isInt : List Bool) (x : List Val) (j : Nat) (hj : j < x.length) :
+    (roundStep r true true isInt x).length = x.length ∧
+    (roundStep r true true isInt x).getD j 0 =
+      (if j < isInt.length ∧ isInt.getD j false = true then roundHalfAway (x.getD j 0) else x.getD j 0) := by
+  have hr0 : r ≠ 0 := by intro h; rw [h] at hr; simp at hr
+  have hA : roundAssign r = true := by simp [roundAssign, hr]
+  unfold roundStep
+  simp only [hr0, ne_eq, not_false_eq_true, and_self, if_true]
+  refine ⟨by simp, ?_⟩
+  simp only [List.getD_eq_getElem?_getD, List.getElem?_map, List.getElem?_range hj, Option.map_some, Option.getD_some, hA, roundElem]
+  by_cases h1 : j < isInt.length
+  · by_cases h2 : (isInt[j]?.getD false) = true <;> simp [h1, h2]
+  · simp [h1]
+
+theorem C04_round_length (r : Int) (isMIP solved : Bool) (isInt : List Bool) (x : List Val) :
+    (roundStep r isMIP solved isInt x).length = x.length := by
+  unfold roundStep
+  split <;> simp
+
+/-- **End to end**: with a report-only option the values written for the original variables are exactly the solver's values (all lengths). -/
+theorem C04_primal_written_report_only (g : Graph) (sv dv n : Nat) (inputs : List (Nat × List Val)) (x : List Val) (prev S' : St)
+    (r : Int) (hr : r % 2 = 0) (isMIP solved : Bool) (isInt : List Bool)
+    (hwf : g.wfVarsExact sv dv n = true) (hx : inputs.lookup dv = some x)
+    (hrun : runFrom g prev ⟨.post, .sol, inputs⟩ = some S') :
+    roundStep r isMIP solved isInt (readNode S' sv (g.size sv)) = (List.range n).map (fun j => x.getD j 0) := by
+  rw [C04_round_report_only_keeps_values r hr]
+  exact (C04_primal_exact g sv dv n .sol inputs x prev S' hwf hx hrun).1
+
 /-! ### structure ties: what exists in the source is what the model covers -/
 
 open MpVerif.Gen in
